@@ -6,6 +6,7 @@ usage: python -m harness.drivers.d_twin classes OUT.ndjson HIST.ndjson
 """
 import gc, itertools, json, os, sys, collections
 
+from harness.drivers import pmap
 import optree
 from harness import vuniv as U
 from harness.drivers.d_tree import type_tag
@@ -200,8 +201,8 @@ def trees_main(inp, outp):
     import multiprocessing as mp
     U.setup_world()
     lines = list(open(inp))
-    with mp.Pool(int(os.environ.get('VERIF_PROCS', '16')), initializer=U.setup_world) as pool, open(outp, 'w') as fh:
-        for res in pool.imap(_tree_work, lines, chunksize=32):
+    with open(outp, 'w') as fh:
+        for res in pmap(_tree_work, lines, init=U.setup_world, chunksize=32):
             for c in res:
                 fh.write(c + '\n')
     # partially ordered keys (frozensets): the two real implementations are only compared with each other
